@@ -541,9 +541,10 @@ impl BuiltInFunction {
 
                 let start_i64 = start as i64;
                 let end_i64 = end as i64;
-                let length = end_i64 - start_i64;
+                // The casts saturate, so the difference can exceed the i64 range
+                let length = end_i64 as i128 - start_i64 as i128;
 
-                if length > u32::MAX as i64 {
+                if length > u32::MAX as i128 {
                     return Err(RuntimeError::new(format!(
                         "list would be longer than the maximum length of {}",
                         u32::MAX
@@ -604,7 +605,7 @@ impl BuiltInFunction {
                     return Err(RuntimeError::from("median requires at least one number"));
                 }
 
-                nums.sort_by(|a, b| a.partial_cmp(b).unwrap());
+                nums.sort_by(|a, b| a.total_cmp(b));
                 let len = nums.len();
                 if len % 2 == 0 {
                     Ok(Value::Number((nums[len / 2 - 1] + nums[len / 2]) / 2.0))
@@ -627,7 +628,11 @@ impl BuiltInFunction {
                     .map(|a| a.as_number())
                     .collect::<AnyhowResult<Vec<f64>>>()?;
 
-                nums.sort_by(|a, b| a.partial_cmp(b).unwrap());
+                if nums.is_empty() {
+                    return Err(RuntimeError::from("percentile requires at least one number"));
+                }
+
+                nums.sort_by(|a, b| a.total_cmp(b));
                 let index = (p / 100.0 * (nums.len() - 1) as f64).round() as usize;
 
                 Ok(Value::Number(nums[index]))
@@ -1794,7 +1799,16 @@ impl FunctionDef {
                 for (idx, expected_arg) in expected_args.iter().enumerate() {
                     match expected_arg {
                         LambdaArg::Required(arg_name) => {
-                            local_bindings.insert(arg_name.clone(), args[idx]);
+                            // A required parameter written after an optional one can be
+                            // left without an argument even though the count is in range
+                            let value = args.get(idx).copied().ok_or_else(|| {
+                                RuntimeError::new(format!(
+                                    "{} is missing an argument for its required parameter \"{}\"",
+                                    self.get_name(),
+                                    arg_name
+                                ))
+                            })?;
+                            local_bindings.insert(arg_name.clone(), value);
                         }
                         LambdaArg::Optional(arg_name) => {
                             local_bindings.insert(
